@@ -20,12 +20,13 @@ def run(rep, tier, seed):
         rep.violation({'kind': 'proof-broken', 'log': pr['log'][-3000:], 'forbidden': pr['forbidden']}, suffix='no-failing-input-found')
     nh, nops, mp = (8, 30, 150) if tier == 'quick' else (200, 60, 100000)
     k3check.run_crash(rep, 'C03', tier, seed, ['written'], nh, nops, mp, OPTS, known_sig=known_sig, nested=(40 if tier == 'quick' else 6))
+    k3check.log_gc_race_segment(rep, tier, seed + 77, label='threaded-build-log-unlink-image')      # pthread build: images taken at every log unlink while the client keeps writing
     import extra_wfile
     extra_wfile.run_segment(rep, tier, seed)      # predicted write(2)/fsync sequence of the WFile model vs the traced calls
     rep.cov['rule'] = ('write histories (batches with marker keys, mixed sync flags, flush/compact/reopen) run under libc interposition; '
                        'for every (sampled in quick) syscall boundary the byte-exact image of everything that reached write(2) is '
                        'materialised and the real ldb_open + full scan is compared with the contract: contents = all acknowledged batches in order '
-                       '(+ possibly the one in flight); distinct_nontrivial = distinct crash images recovered')
+                       '(+ possibly the one in flight); plus, on the pthread build, a directory copy at every write-ahead-log unlink of a continuously writing client is recovered and must show every write acknowledged before the unlink; distinct_nontrivial = distinct crash images recovered')
 
 def replay(rep, path):
     return k3check.replay_crash(rep, path)
